@@ -31,14 +31,27 @@ def check(chk):
         ok = isinstance(v, ast.BinOp) and isinstance(v.op, ast.Mod) and src(v.left) == 'query'
         elts = []
         if ok:
-            gens = [n for n in ast.walk(v.right) if isinstance(n, ast.GeneratorExp)]
-            ok = len(gens) == 1
+            comps = [n for n in ast.walk(v.right) if isinstance(n, (ast.GeneratorExp, ast.ListComp, ast.DictComp))]
+            ok = len(comps) == 1 and len(comps[0].generators) == 1 and not comps[0].generators[0].ifs
             if ok:
-                e = gens[0].elt
-                val = e.elts[1] if isinstance(e, ast.Tuple) else e
-                ok = isinstance(val, ast.Call) and src(val.func) == 'encoder.cql_encode_all_types' and len(val.args) == 1 and src(val.args[0]) == 'v' and not val.keywords
-                if isinstance(e, ast.Tuple):
-                    ok = ok and src(e.elts[0]) == 'k'
+                cp = comps[0]
+                gen = cp.generators[0]
+                over_items = src(gen.iter) == 'params.items()'
+                ok = over_items or src(gen.iter) == 'params'
+                if isinstance(cp, ast.DictComp):
+                    key_e, val = cp.key, cp.value
+                else:
+                    key_e, val = (cp.elt.elts[0], cp.elt.elts[1]) if isinstance(cp.elt, ast.Tuple) and len(cp.elt.elts) == 2 else (None, cp.elt)
+                if over_items:
+                    ok = ok and isinstance(gen.target, ast.Tuple) and len(gen.target.elts) == 2 and key_e is not None and src(key_e) == src(gen.target.elts[0])
+                    vvar = src(gen.target.elts[1]) if ok else None
+                else:
+                    ok = ok and key_e is None and isinstance(gen.target, ast.Name)
+                    vvar = src(gen.target) if ok else None
+                ok = ok and isinstance(val, ast.Call) and src(val.func) == 'encoder.cql_encode_all_types' and len(val.args) == 1 and src(val.args[0]) == vvar and not val.keywords
+                # nothing but the container constructor between the comprehension and the % operator
+                wrap = v.right
+                ok = ok and (wrap is cp or (isinstance(wrap, ast.Call) and isinstance(wrap.func, ast.Name) and wrap.func.id in ('tuple', 'dict', 'list') and len(wrap.args) == 1 and wrap.args[0] is cp and not wrap.keywords))
         chk.judge(ok, 'C29.taint', r, 'bind_params arm: query %% (... encoder.cql_encode_all_types(v) ...)', 'a parameter reaches the statement text without passing the encoder: %s' % src(v)[:90])
     # mapping table
     init = enc.func('Encoder.__init__')
